@@ -30,12 +30,13 @@ theorem map_set (den : Nat → Nat) : ∀ (kids : List Nat) (i c : Nat) (x : Nat
 
 theorem stepOk_sound {terms : Array Term} {den : Nat → Nat} (hc : Congruent terms den)
     {prev : List Step} (hprev : ∀ s ∈ prev, Holds den s) {s : Step}
-    {rules : List Rule}
-    (hleaf : s.just = .leaf → Holds den s) (hrule : ∀ r ps σ, s.just = .rule r ps σ → Holds den s)
-    (hok : stepOk rules terms prev s = true) : Holds den s := by
+    {prog : Prog}
+    (hleaf : s.just = .leaf ∨ s.just = .fiat → Holds den s) (hrule : ∀ r ps σ, s.just = .rule r ps σ → Holds den s)
+    (hok : stepOk prog terms prev s = true) : Holds den s := by
   unfold stepOk at hok
   cases hj : s.just with
-  | leaf => exact hleaf hj
+  | leaf => exact hleaf (.inl hj)
+  | fiat => exact hleaf (.inr hj)
   | rule r ps σ => exact hrule r ps σ hj
   | sym p =>
     rw [hj] at hok
@@ -91,10 +92,10 @@ theorem stepOk_sound {terms : Array Term} {den : Nat → Nat} (hc : Congruent te
             rw [h5]
             exact (map_set den t.kids i sq.rhs sq.lhs h4 hq').symm
 
-theorem checkFrom_sound {terms : Array Term} {den : Nat → Nat} (hc : Congruent terms den) {rules : List Rule} :
+theorem checkFrom_sound {terms : Array Term} {den : Nat → Nat} (hc : Congruent terms den) {prog : Prog} :
     ∀ (steps prev : List Step), (∀ s ∈ prev, Holds den s) →
-      (∀ s ∈ steps, s.just = .leaf → Holds den s) →
-      (∀ s ∈ steps, ∀ r ps σ, s.just = .rule r ps σ → Holds den s) → checkFrom rules terms prev steps = true →
+      (∀ s ∈ steps, s.just = .leaf ∨ s.just = .fiat → Holds den s) →
+      (∀ s ∈ steps, ∀ r ps σ, s.just = .rule r ps σ → Holds den s) → checkFrom prog terms prev steps = true →
       ∀ s ∈ steps, Holds den s := by
   intro steps
   induction steps with
@@ -113,28 +114,28 @@ theorem checkFrom_sound {terms : Array Term} {den : Nat → Nat} (hc : Congruent
       · simp at h; subst h; exact hs
 
 /-- **Soundness of the structural checker** (equational layer): an accepted proof proves only what
-follows from its program-justified steps (leaves and rule steps — for the latter see
-`C12_rule_sound` below) by symmetry, transitivity and congruence. -/
-theorem C12_sound (rules : List Rule) (terms : Array Term) (steps : List Step) (den : Nat → Nat) (hc : Congruent terms den)
-    (hleaf : ∀ s ∈ steps, s.just = .leaf → Holds den s)
+follows from its program-justified steps (leaves, fiat and rule steps — for the latter two see
+`C12_rule_sound` in C12r) by symmetry, transitivity and congruence. -/
+theorem C12_sound (prog : Prog) (terms : Array Term) (steps : List Step) (den : Nat → Nat) (hc : Congruent terms den)
+    (hleaf : ∀ s ∈ steps, s.just = .leaf ∨ s.just = .fiat → Holds den s)
     (hrule : ∀ s ∈ steps, ∀ r ps σ, s.just = .rule r ps σ → Holds den s)
-    (hok : checkProof rules terms steps = true) :
+    (hok : checkProof prog terms steps = true) :
     ∀ s ∈ steps, Holds den s :=
   checkFrom_sound hc steps [] (fun s h => by cases h) hleaf hrule hok
 
 /-- a step that refers to a later (or missing) step is never accepted: proofs are well-founded -/
-theorem C12_wellfounded (rules : List Rule) (terms : Array Term) (prev : List Step) (p : Nat) (l r : Nat) (h : prev.length ≤ p) :
-    stepOk rules terms prev ⟨.sym p, l, r⟩ = false := by
+theorem C12_wellfounded (prog : Prog) (terms : Array Term) (prev : List Step) (p : Nat) (l r : Nat) (h : prev.length ≤ p) :
+    stepOk prog terms prev ⟨.sym p, l, r⟩ = false := by
   simp [stepOk, List.getElem?_eq_none h]
 
 /-- swapping the operands of a `Trans` whose middle terms differ is rejected -/
-theorem C12_swapped_trans_rejected (rules : List Rule) (terms : Array Term) (prev : List Step) (p q : Nat) (sp sq : Step)
+theorem C12_swapped_trans_rejected (prog : Prog) (terms : Array Term) (prev : List Step) (p q : Nat) (sp sq : Step)
     (hp : prev[p]? = some sp) (hq : prev[q]? = some sq) (hne : sq.rhs ≠ sp.lhs) (l r : Nat) :
-    stepOk rules terms prev ⟨.trans q p, l, r⟩ = false := by
+    stepOk prog terms prev ⟨.trans q p, l, r⟩ = false := by
   simp [stepOk, hp, hq, hne]
 
 /-- non-vacuity: f(a) = f(b) from a = b -/
-example : checkProof [] #[⟨0, []⟩, ⟨1, []⟩, ⟨2, [0]⟩, ⟨2, [1]⟩]
+example : checkProof ⟨[], [], []⟩ #[⟨0, []⟩, ⟨1, []⟩, ⟨2, [0]⟩, ⟨2, [1]⟩]
     [⟨.leaf, 0, 1⟩, ⟨.leaf, 2, 2⟩, ⟨.congr 1 0 0, 2, 3⟩, ⟨.sym 2, 3, 2⟩] = true := by decide
 
 end EgglogVerif.ProofCk
